@@ -152,7 +152,7 @@ func rndScalar(r *rand.Rand, k string, zero bool) AV {
 	}
 }
 
-var snippets = []string{"a, b", "k:  v", "\": \"", "\"", "\\", "{", "}", "[1, 2]", "\n", "\t", " ", "\u00e9", "\u65e5\u672c", "<&>", "x,y", ": ", "//", "null", "0"}
+var snippets = []string{"C:\\Program Files\\", "hello wide world", "tail\\", "a, b", "k:  v", "\": \"", "\"", "\\", "{", "}", "[1, 2]", "\n", "\t", " ", "\u00e9", "\u65e5\u672c", "<&>", "x,y", ": ", "//", "null", "0"}
 
 func rnd64(r *rand.Rand) uint64 {
 	switch r.Intn(6) {
